@@ -249,6 +249,9 @@ type stdioTransport struct {
 	logger      Logger
 	contextFunc StdioContextFunc
 	session     *stdioSession
+	// writeMu serialises frames on the output: answers are written by one
+	// goroutine per request and by the outgoing-message pump.
+	writeMu sync.Mutex
 }
 
 // stdioServerTransportOption configures a stdioTransport.
@@ -521,12 +524,12 @@ func (s *stdioTransport) writeResponse(response interface{}, writer io.Writer) e
 		return fmt.Errorf("error marshaling response: %w", err)
 	}
 
-	if _, err := writer.Write(data); err != nil {
+	// One frame is one write of the message and its terminating newline, with
+	// the output lock held: frames of concurrent writers must not interleave.
+	s.writeMu.Lock()
+	defer s.writeMu.Unlock()
+	if _, err := writer.Write(append(data, '\n')); err != nil {
 		return fmt.Errorf("error writing response: %w", err)
-	}
-
-	if _, err := writer.Write([]byte("\n")); err != nil {
-		return fmt.Errorf("error writing newline: %w", err)
 	}
 
 	// Force flush buffer to ensure immediate delivery.
